@@ -163,27 +163,42 @@ flags" (`SUM(({{1}}))`, `SUM((MAX({SUM({1})})))` panicked in `parseToken`; repos
 theorem fixed_nested_array_constant_witness :
     nested [] 0 witnessNestedArray = true ∧ evalTokens semU witnessNestedArray = .ok () := by decide
 
-/-- what the "no array constant" hypothesis of `eval_no_panic_functions` still excluded after fix
-9c11688: an ARRAYROW start without an enclosing ARRAY start — the evaluator ignores it while the
-plain bracket checker `nested` counts it as an opening bracket.  (Superseded by `eval_no_panic`,
-whose array-aware discipline `nestedA` rejects exactly this shape.) -/
-theorem finding_model_arrayrow_without_array_panics :
-    nested [] 0 [fstart "SUM", ⟨"", .subexpr, .start⟩, fstart "ARRAYROW", fstop, ⟨"", .subexpr, .stop⟩] = true ∧
-    evalTokens semU [fstart "SUM", ⟨"", .subexpr, .start⟩, fstart "ARRAYROW", fstop, ⟨"", .subexpr, .stop⟩] = .panic := by
-  decide
+/-- tokens efp emits for `SUM((ARRAYROW(1)))` -/
+def witnessRowOutside : List Tok :=
+  [fstart "SUM", ⟨"", .subexpr, .start⟩, fstart "ARRAYROW", num "1", fstop, ⟨"", .subexpr, .stop⟩, fstop]
+
+/-- tokens efp emits for `SUM((SUM(;1)))` (a `;` outside an array constant: Function Stop, Argument, ARRAYROW start) -/
+def witnessSemicolon : List Tok :=
+  [fstart "SUM", ⟨"", .subexpr, .start⟩, fstart "SUM", fstop, ⟨",", .argument, .nothing⟩, fstart "ARRAYROW",
+   num "1", fstop, ⟨"", .subexpr, .stop⟩, fstop]
+
+/-- regression of the repaired defect "an ARRAYROW token outside an array constant is ignored but its
+stop closes the enclosing function" (`SUM((ARRAYROW(1)))` panicked in `parseToken`; predicted by this
+model, reached through formula text once the harness checked the nesting discipline on every efp token
+list; repository fix d5de215: outside an array constant without an open row the token is an ordinary
+function start). -/
+theorem fixed_arrayrow_outside_array_witness :
+    nestedA [] [] witnessRowOutside = true ∧ evalTokens semU witnessRowOutside = .ok () := by decide
+
+/-- regression of the repaired defect "an argument separator directly inside a parenthesis flushes the
+operator stack past the `(`" (`SUM((SUM(;1)))` panicked in `parseToken`; repository fix cdb1ef6: such a
+separator is skipped). -/
+theorem fixed_argument_in_parenthesis_witness :
+    nestedA [] [] witnessSemicolon = true ∧ evalTokens semU witnessSemicolon = .ok () := by decide
 
 /-- **No panic — function calls, parentheses AND array constants; every value semantics, depth,
 arity.**  For every token list that satisfies the array-aware nesting discipline `nestedA`
 (what a tokenizer with a bracket stack guarantees: calls, parentheses and array constants
-properly nested, an ARRAYROW start only directly inside an array constant without an open row,
-no Argument directly inside a parenthesis of a function) and for EVERY operand semantics,
+properly nested; an ARRAYROW start opens a row when it sits directly inside an array constant
+without an open row and is an ordinary function start anywhere else; an Argument may sit
+anywhere) and for EVERY operand semantics,
 reference resolver and function library, `evalInfixExp` returns a value or an error.  No
 "array constant" hypothesis is left.  Invariant (`Lemmas/CalcTotalArr.InvA`): as for
 `eval_no_panic_functions`, plus: the stack of open array constants (`St.arrs`, fix 9c11688)
 mirrors the array frames — depth = number of function frames below, open row as the frame
 says — so `array()` is determined by the innermost frame and every Function Stop is consumed
 by exactly the bracket the nesting says.  False before the repairs cc2477f, 07e33d8, 6963681,
-fecba5e, 9c11688 (each has a `fixed_*` witness that satisfies `nestedA`). -/
+fecba5e, 9c11688, d5de215, cdb1ef6 (each has a `fixed_*` witness that satisfies `nestedA`). -/
 theorem eval_no_panic {V : Type} (S : Sem V) (toks : List Tok) (hnest : nestedA [] [] toks = true) :
     evalTokens S toks ≠ .panic :=
   run_invA S toks {} [] [] invA_init hnest
@@ -195,19 +210,15 @@ theorem nestedA_witnesses :
     nestedA [] [] witnessArraySep = true ∧ nestedA [] [] witnessArrayParenFn = true ∧
     nestedA [] [] witnessNestedArray = true := by decide
 
-/-- **Open finding (code and model agree).**  `nestedA` differs from plain bracket nesting in one
-rule: an ARRAYROW start must sit directly inside an array constant.  The rule is necessary — the
-list below violates it and panics — and, contrary to what was assumed until the harness checked
-the discipline on the efp tokens of every generated formula, efp DOES emit such lists: it writes
-an ARRAYROW start for every `;` and for a function literally named ARRAYROW, inside an array
-constant or not.  `SUM((ARRAYROW(1)))` (the list below) and `SUM((SUM(;1)))` panic on the real
-code: the evaluator ignores the ARRAYROW start but lets its Function Stop close the enclosing
-function.  Candidate two-line repair: when `array()` is nil, treat the ARRAYROW start as the
-start of an (unknown) function. -/
-theorem finding_model_arrayrow_without_array_rejected :
-    nestedA [] [] [fstart "SUM", ⟨"", .subexpr, .start⟩, fstart "ARRAYROW", fstop, ⟨"", .subexpr, .stop⟩] = false ∧
-    evalTokens semU [fstart "SUM", ⟨"", .subexpr, .start⟩, fstart "ARRAYROW", fstop, ⟨"", .subexpr, .stop⟩] = .panic := by
-  decide
+/-- what `nestedA` still excludes beyond plain bracket nesting, after the repairs d5de215 / cdb1ef6: a row
+that opens UNDERNEATH a parenthesis inside an array constant whose row a stray `)` closed
+(`{1)(ARRAYROW(2))}`) — the frames cannot represent it.  The evaluator does not panic on it (the checker
+is conservative here, the shape stays under the harness oracle). -/
+theorem nestedA_conservative_example :
+    nestedA [] [] [fstart "ARRAY", fstart "ARRAYROW", num "1", fstop, ⟨"", .subexpr, .start⟩, fstart "ARRAYROW",
+      num "2", fstop, ⟨"", .subexpr, .stop⟩, fstop, fstop] = false ∧
+    evalTokens semU [fstart "ARRAY", fstart "ARRAYROW", num "1", fstop, ⟨"", .subexpr, .start⟩, fstart "ARRAYROW",
+      num "2", fstop, ⟨"", .subexpr, .stop⟩, fstop, fstop] ≠ .panic := by decide
 
 /-! ## deep nesting ("deep nesting … in bounded time without panicking": no stack overflow) -/
 
